@@ -1,6 +1,6 @@
 # spec lemmas: the specification layer audited by CBMC on the spec alone (direct mode, no /repo code)
 TU('spec', 'lib/nifty.h', LIB_CFLAGS, pre=['spec/greg.h', 'spec/iso.h'], post=['spec/lemmas.h'])
-ALLP = ['C01', 'C02', 'C03', 'C04', 'C05', 'C07', 'C08', 'C11', 'C15', 'C16']
+ALLP = ['C01', 'C03', 'C04', 'C05', 'C07', 'C08']
 
 G('spec.anchors', 'spec', 'L_anchors', ALLP, body='\tL_anchors();', direct=True, must=['L_anchors'], native=False, reach=False)
 for sfx, pred in ysplit('in_y', 8):
